@@ -140,9 +140,23 @@ def gene_layout(draw, length: int, circular: bool, *, max_genes: int = 10, min_g
         strand = draw(st.sampled_from([1, -1]))
         size = draw(st.one_of(st.integers(3, max(3, typical)), st.integers(3, max(3, min(length, 3 * typical))),
                               st.sampled_from([3, 4, 6])))
-        mode = draw(st.sampled_from(["gap", "gap", "gap", "touch", "overlap", "nested", "same_start", "same_end"]))
+        mode = draw(st.sampled_from(["gap", "gap", "gap", "touch", "overlap", "nested", "same_start", "same_end",
+                                     "antisense"]))
         if prev is None:
             mode = "gap"
+        if mode == "antisense":
+            # the previous gene again on the other strand: equal coordinates, which no sort by position can order
+            twin = genes[-1]["loc"] if genes else None
+            if twin is None or twin.get("kind") == "span":
+                mode = "gap"
+            else:
+                parts = sorted(list(part) for part in twin["parts"])
+                strand = -twin["strand"]
+                key = (tuple(map(tuple, parts)), strand)
+                if key not in seen:
+                    seen.add(key)
+                    genes.append({"loc": {"parts": _order_parts(parts, strand), "strand": strand, "kind": twin["kind"]}})
+                continue
         if mode == "gap":
             choices = [st.integers(0, max(1, typical)), st.integers(0, max(1, 3 * typical)), st.sampled_from([0, 1, 2])]
             if gap_choices:
